@@ -13,6 +13,8 @@ def extra(led, tier, seed):
     led.extend(repro.fit_obligations())
     led.extend(repro.predict_effects())
     led.extend(repro.path_frame())
+    from contracts import batching
+    led.extend(o for o in batching.fx_obligations() if 'disguise_batch' in o.name)
     led.extend(forwarding.init_obligations(forwarding.estimators_all()))
     led.extend(repro.native_histories(seed, tier))
     led.assume("A4", "A5: check_random_state(int) returns a fresh RandomState seeded with that int; sklearn validation returns new arrays or the same array unmodified",
